@@ -54,7 +54,11 @@ class DU(DirectedEdge, UnDirectedEdge):
 
 
 class X(TwoEndedLink):
-    """a two-ended link class that is neither directed nor undirected"""
+    """a two-ended link class that is neither directed nor undirected; its constructor names its
+    two (positional) ends differently"""
+
+    def __init__(self, src=None, dst=None, **kwargs):
+        super().__init__(src, dst, **kwargs)
 
 
 class N(Link):
